@@ -1,12 +1,463 @@
-(* C04 — lemmas *)
+(* C04 — lemmas, part 1: the define decision table (goja's _defineOwnProperty vs
+   ValidateAndApplyPropertyDescriptor) and the essential invariants of S along every history. *)
 From Coq Require Import List Arith NArith Bool Lia.
 Import ListNotations.
 From Verif.C04 Require Import Model.
 
-(* F1: a {writable:false} descriptor on a non-configurable accessor is accepted by goja *)
+(* ------------------------------------------------------------------------------------------ *)
+(* equality tests                                                                               *)
+
+Lemma key_eqb_refl : forall k, key_eqb k k = true.
+Proof. destruct k; simpl; auto using N.eqb_refl, Nat.eqb_refl. Qed.
+
+Lemma key_eqb_eq : forall a b, key_eqb a b = true -> a = b.
+Proof.
+  destruct a, b; simpl; intro H; try discriminate;
+    first [apply N.eqb_eq in H | apply Nat.eqb_eq in H]; congruence.
+Qed.
+
+Lemma key_eqb_sym : forall a b, key_eqb a b = key_eqb b a.
+Proof. destruct a, b; simpl; auto using N.eqb_sym, Nat.eqb_sym. Qed.
+
+Lemma val_eqb_eq : forall a b, val_eqb a b = true -> a = b.
+Proof. destruct a, b; simpl; intro H; try discriminate; auto; apply Nat.eqb_eq in H; congruence. Qed.
+
+Lemma val_eqb_refl : forall a, val_eqb a a = true.
+Proof. destruct a; simpl; auto using Nat.eqb_refl. Qed.
+
+Lemma ofn_eqb_eq : forall a b, ofn_eqb a b = true -> a = b.
+Proof. destruct a, b; simpl; intro H; try discriminate; auto; apply Nat.eqb_eq in H; congruence. Qed.
+
+(* ------------------------------------------------------------------------------------------ *)
+(* 1. the define decision table                                                                 *)
+
+(* F1: existing non-configurable accessor, descriptor with writable but no value; the configurable /
+   enumerable checks (which both sides perform alike) pass *)
+Definition in_F1 (ex : option iprop) (d : desc) : bool :=
+  match ex with
+  | Some (IProp p) =>
+      vp_accessor p && negb (vp_configurable p) && negb (isSome (d_value d)) && isSome (d_writable d)
+      && negb (is_true (d_conf d)) && negb (differs (d_enum d) (vp_enumerable p))
+  | _ => false
+  end.
+
+(* N2: existing non-configurable data property, accessor descriptor whose get/set are all undefined *)
+Definition in_N2 (ex : option iprop) (d : desc) : bool :=
+  match ex with
+  | Some (IProp p) =>
+      negb (vp_accessor p) && negb (vp_configurable p) && is_acc_desc d
+      && negb (isSome (fn_of (d_get d))) && negb (isSome (fn_of (d_set d)))
+      && negb (is_true (d_conf d)) && negb (differs (d_enum d) (vp_enumerable p))
+  | _ => false
+  end.
+
+(* N1: a writable data property is turned into an accessor: writable stays set *)
+Definition in_N1 (fx : fixes) (ext : bool) (ex : option iprop) (d : desc) : bool :=
+  is_acc_desc d && isSome (GojaDefine fx ext ex d) &&
+  match ex with
+  | Some (IBare _) => true
+  | Some (IProp p) => negb (vp_accessor p) && vp_writable p
+  | None => false
+  end.
+
+(* N3: an accessor is turned into a data property by a descriptor with writable but no value: the
+   getter/setter stay installed *)
+Definition in_N3 (fx : fixes) (ext : bool) (ex : option iprop) (d : desc) : bool :=
+  negb (isSome (d_value d)) && isSome (d_writable d) && isSome (GojaDefine fx ext ex d) &&
+  match ex with
+  | Some (IProp p) => vp_accessor p && (isSome (vp_getter p) || isSome (vp_setter p))
+  | _ => false
+  end.
+
+Ltac split_desc d Hwf :=
+  destruct d as [dv dw dg ds de dc];
+  destruct dv as [?v|]; destruct dw as [[|]|]; destruct dg as [[?g|]|]; destruct ds as [[?s|]|];
+  try discriminate Hwf.
+
+Ltac split_ex ex Hex :=
+  destruct ex as [[?v0|[pv pw pc pe pa pg ps]]|];
+  [ | destruct pv as [?v0|]; destruct pw; destruct pa; destruct pg as [?g0|]; destruct ps as [?s0|];
+      try discriminate Hex; destruct pc; destruct pe | ].
+
+Ltac norm := cbv -[val_eqb Nat.eqb].
+Ltac eqb_cases :=
+  repeat match goal with
+         | |- context [val_eqb ?a ?b] => destruct (val_eqb a b) eqn:?; norm
+         | |- context [Nat.eqb ?a ?b] => destruct (Nat.eqb a b) eqn:?; norm
+         end.
+
+Lemma define_eq_spec_partial : forall ext ex d,
+  desc_wf d = true -> oiprop_wf ex = true -> in_F1 ex d = false -> in_N2 ex d = false ->
+  option_map absP (GojaDefine fx_none ext ex d) = ValidateAndApply ext (option_map absP ex) d.
+Proof.
+  intros ext ex d Hwf Hex H1 H2.
+  split_desc d Hwf; split_ex ex Hex;
+    destruct de as [[|]|]; destruct dc as [[|]|]; destruct ext;
+    cbv in H1, H2; try discriminate H1; try discriminate H2; clear;
+    norm; eqb_cases; reflexivity.
+Qed.
+
+(* the carved-out regions are exactly where the two differ *)
+Lemma define_guard_exact : forall ext ex d,
+  desc_wf d = true -> oiprop_wf ex = true -> in_F1 ex d || in_N2 ex d = true ->
+  option_map absP (GojaDefine fx_none ext ex d) <> ValidateAndApply ext (option_map absP ex) d.
+Proof.
+  intros ext ex d Hwf Hex H.
+  split_desc d Hwf; split_ex ex Hex;
+    destruct de as [[|]|]; destruct dc as [[|]|]; destruct ext;
+    cbv in H; try discriminate H; clear; norm; discriminate.
+Qed.
+
+(* with the four repairs of _defineOwnProperty switched on the table is the specification's, and the
+   representation invariant is kept *)
+Lemma define_eq_spec_fixed : forall ext ex d,
+  desc_wf d = true -> oiprop_wf ex = true ->
+  option_map absP (GojaDefine fx_all ext ex d) = ValidateAndApply ext (option_map absP ex) d
+  /\ oiprop_wf (GojaDefine fx_all ext ex d) = true.
+Proof.
+  intros ext ex d Hwf Hex.
+  split_desc d Hwf; split_ex ex Hex;
+    destruct de as [[|]|]; destruct dc as [[|]|]; destruct ext; clear;
+    norm; eqb_cases; split; reflexivity.
+Qed.
+
+Ltac eqb_cases_in H :=
+  repeat match type of H with
+         | context [val_eqb ?a ?b] => destruct (val_eqb a b) eqn:?; cbv -[val_eqb Nat.eqb] in H
+         | context [Nat.eqb ?a ?b] => destruct (Nat.eqb a b) eqn:?; cbv -[val_eqb Nat.eqb] in H
+         end.
+
+(* on the current tree the representation invariant is kept outside N1 and N3 ... *)
+Lemma define_wf_partial : forall ext ex d,
+  desc_wf d = true -> oiprop_wf ex = true ->
+  in_N1 fx_none ext ex d = false -> in_N3 fx_none ext ex d = false ->
+  oiprop_wf (GojaDefine fx_none ext ex d) = true.
+Proof.
+  intros ext ex d Hwf Hex H1 H3.
+  split_desc d Hwf; split_ex ex Hex;
+    destruct de as [[|]|]; destruct dc as [[|]|]; destruct ext;
+    cbv -[val_eqb Nat.eqb] in H1, H3; eqb_cases_in H1; eqb_cases_in H3;
+    try discriminate H1; try discriminate H3; clear H1 H3;
+    norm; eqb_cases; try reflexivity; congruence.
+Qed.
+
+(* ... and broken inside *)
+Lemma define_wf_guard_exact : forall ext ex d,
+  desc_wf d = true -> oiprop_wf ex = true ->
+  in_N1 fx_none ext ex d || in_N3 fx_none ext ex d = true ->
+  oiprop_wf (GojaDefine fx_none ext ex d) = false.
+Proof.
+  intros ext ex d Hwf Hex H.
+  split_desc d Hwf; split_ex ex Hex;
+    destruct de as [[|]|]; destruct dc as [[|]|]; destruct ext;
+    cbv -[val_eqb Nat.eqb] in H; eqb_cases_in H; try discriminate H; clear H;
+    norm; eqb_cases; try reflexivity; congruence.
+Qed.
+
+(* refutations of the full-strength statements, by computation on explicit witnesses *)
 Definition f1_existing := IProp (mkVP None false false false true (Some 0) None).
 Definition f1_desc := mkDesc None (Some false) None None None None.
 Lemma define_refuted :
   exists ext ex d, desc_wf d = true /\ oiprop_wf ex = true /\
     option_map absP (GojaDefine fx_none ext ex d) <> ValidateAndApply ext (option_map absP ex) d.
 Proof. exists true, (Some f1_existing), f1_desc. vm_compute. repeat split; discriminate. Qed.
+
+Definition n2_existing := IProp (mkVP (Some (VNum 1)) false false false false None None).
+Definition n2_desc := mkDesc None None (Some None) None None None.
+Lemma define_undefined_getter_refuted :
+  desc_wf n2_desc = true /\ oiprop_wf (Some n2_existing) = true /\
+  option_map absP (GojaDefine fx_none true (Some n2_existing) n2_desc) = Some (PAcc None None false false) /\
+  ValidateAndApply true (Some (absP n2_existing)) n2_desc = None.
+Proof. vm_compute. repeat split. Qed.
+
+(* N1 as a two-step history on one property: data(writable) -> accessor -> {value} *)
+Definition n1_step1 := GojaDefine fx_none true (Some (IBare (VNum 1))) (mkDesc None None (Some (Some 0)) None None None).
+Lemma define_hidden_writable_refuted :
+  exists ip, n1_step1 = Some ip /\ iprop_wf ip = false /\
+    option_map absP (GojaDefine fx_none true (Some ip) (d_value_only (VNum 2))) = Some (PData (VNum 2) true true true) /\
+    ValidateAndApply true (Some (absP ip)) (d_value_only (VNum 2)) = Some (PData (VNum 2) false true true).
+Proof. eexists. vm_compute. repeat split. Qed.
+
+(* N3: accessor -> {writable:true} keeps the getter *)
+Definition n3_existing := IProp (mkVP None false true false true (Some 0) None).
+Lemma define_stale_getter_refuted :
+  exists p, GojaDefine fx_none true (Some n3_existing) (mkDesc None (Some true) None None None None) = Some (IProp p)
+            /\ vp_accessor p = false /\ vp_getter p = Some 0 /\ vprop_wf p = false.
+Proof. eexists. vm_compute. repeat split. Qed.
+
+(* ------------------------------------------------------------------------------------------ *)
+(* 2. essential invariants of S                                                                 *)
+
+Section AssocLemmas.
+Context {A : Type}.
+Lemma find_put_same : forall k (a : A) l, find k (put k a l) = Some a.
+Proof.
+  induction l as [|[k' a'] r IH]; simpl.
+  - now rewrite key_eqb_refl.
+  - destruct (key_eqb k k') eqn:E; simpl; rewrite ?E; auto.
+Qed.
+Lemma find_put_other : forall k k' (a : A) l, key_eqb k' k = false -> find k' (put k a l) = find k' l.
+Proof.
+  induction l as [|[k0 a0] r IH]; simpl; intro H.
+  - now rewrite H.
+  - destruct (key_eqb k k0) eqn:E; simpl.
+    + apply key_eqb_eq in E; subst k0. now rewrite H.
+    + destruct (key_eqb k' k0); auto.
+Qed.
+Lemma find_del_other : forall k k' (l : list (key * A)), key_eqb k' k = false -> find k' (del k l) = find k' l.
+Proof.
+  induction l as [|[k0 a0] r IH]; simpl; intro H; auto.
+  destruct (key_eqb k k0) eqn:E; simpl.
+  - apply key_eqb_eq in E; subst k0. now rewrite H.
+  - destruct (key_eqb k' k0); auto.
+Qed.
+End AssocLemmas.
+
+(* what a non-configurable property keeps *)
+Definition frozen_part (p p' : prop) : Prop :=
+  p_conf p' = false /\ p_is_acc p' = p_is_acc p /\ p_enum p' = p_enum p /\
+  match p with
+  | PData _ w _ _ => w = false -> p' = p
+  | PAcc _ _ _ _ => p' = p
+  end.
+
+Lemma frozen_part_refl : forall p, p_conf p = false -> frozen_part p p.
+Proof. intros p H; repeat split; auto; destruct p; auto. Qed.
+
+Lemma frozen_part_trans : forall p p' p'', frozen_part p p' -> frozen_part p' p'' -> frozen_part p p''.
+Proof.
+  intros p p' p'' (C1 & K1 & E1 & V1) (C2 & K2 & E2 & V2).
+  repeat split; try congruence.
+  destruct p as [v w e c|g s e c].
+  - intro Hw. specialize (V1 Hw). subst p'. auto.
+  - subst p'. auto.
+Qed.
+
+Lemma vaa_frozen : forall ext p d p',
+  desc_wf d = true ->
+  ValidateAndApply ext (Some p) d = Some p' -> p_conf p = false -> frozen_part p p'.
+Proof.
+  intros ext p d p' Hwf H Hc.
+  destruct p as [v w e c|g s e c]; simpl in Hc; subst c;
+    destruct d as [dv dw dg ds de dc];
+    destruct dv as [v'|]; destruct dw as [[|]|]; destruct dg as [g'|]; destruct ds as [s'|];
+    try discriminate Hwf; clear Hwf;
+    destruct de as [[|]|]; destruct dc as [[|]|];
+    cbn in H; try discriminate H;
+    try (destruct e; cbn in H; try discriminate H);
+    try (destruct w; cbn in H; try discriminate H);
+    repeat match type of H with
+           | context [val_eqb ?a ?b] => destruct (val_eqb a b) eqn:?; cbn in H
+           | context [ofn_eqb ?a ?b] => destruct (ofn_eqb a b) eqn:?; cbn in H
+           end;
+    try discriminate H;
+    injection H as <-;
+    repeat match goal with
+           | E : val_eqb _ _ = true |- _ => apply val_eqb_eq in E; subst
+           | E : ofn_eqb _ _ = true |- _ => apply ofn_eqb_eq in E; subst
+           end;
+    repeat split; auto; intros; try discriminate; auto.
+Qed.
+
+Lemma vaa_new_needs_ext : forall d, ValidateAndApply false None d = None.
+Proof. reflexivity. Qed.
+
+Definition obj_le (o o' : obj) : Prop :=
+  (forall k p, find k (o_props o) = Some p -> p_conf p = false ->
+               exists p', find k (o_props o') = Some p' /\ frozen_part p p') /\
+  (o_ext o = false ->
+   o_ext o' = false /\ o_proto o' = o_proto o /\
+   forall k, find k (o_props o') <> None -> find k (o_props o) <> None).
+
+Lemma obj_le_refl : forall o, obj_le o o.
+Proof.
+  intro o; split.
+  - intros k p H Hc. exists p; split; auto using frozen_part_refl.
+  - intro; repeat split; auto.
+Qed.
+
+Lemma obj_le_trans : forall a b c, obj_le a b -> obj_le b c -> obj_le a c.
+Proof.
+  intros a b c [P1 E1] [P2 E2]; split.
+  - intros k p H Hc. destruct (P1 k p H Hc) as (p' & H' & F1).
+    destruct (P2 k p' H' (proj1 F1)) as (p'' & H'' & F2).
+    exists p''; split; eauto using frozen_part_trans.
+  - intro He. destruct (E1 He) as (He' & Pr & Ks). destruct (E2 He') as (He'' & Pr' & Ks').
+    repeat split; try congruence. intros k Hk. auto.
+Qed.
+
+Lemma define_obj_le : forall k d o, obj_le o (define_obj k d o).
+Proof.
+  intros k d o. unfold define_obj, vaa_checked.
+  destruct (desc_wf d) eqn:Hwf; [|apply obj_le_refl].
+  destruct (ValidateAndApply (o_ext o) (find k (o_props o)) d) as [p'|] eqn:V; [|apply obj_le_refl].
+  split; simpl.
+  - intros k0 p H Hc. destruct (key_eqb k0 k) eqn:E.
+    + apply key_eqb_eq in E; subst k0. rewrite H in V.
+      exists p'; split; [apply find_put_same | eapply vaa_frozen; eauto].
+    + rewrite find_put_other by auto. exists p; split; auto using frozen_part_refl.
+  - intro He. repeat split; auto. intros k0 Hk.
+    destruct (key_eqb k0 k) eqn:E.
+    + apply key_eqb_eq in E; subst k0. rewrite He in V.
+      destruct (find k (o_props o)); [discriminate | discriminate V].
+    + rewrite find_put_other in Hk by auto. auto.
+Qed.
+
+Lemma delete_obj_le : forall k o, obj_le o (delete_obj k o).
+Proof.
+  intros k o. unfold delete_obj.
+  destruct (find k (o_props o)) as [p|] eqn:F; [|apply obj_le_refl].
+  destruct (p_conf p) eqn:C; [|apply obj_le_refl].
+  split; simpl.
+  - intros k0 p0 H Hc. destruct (key_eqb k0 k) eqn:E.
+    + apply key_eqb_eq in E; subst k0. congruence.
+    + rewrite find_del_other by auto. exists p0; split; auto using frozen_part_refl.
+  - intro He. repeat split; auto. intros k0 Hk. destruct (key_eqb k0 k) eqn:E.
+    + apply key_eqb_eq in E; subst k0. congruence.
+    + rewrite find_del_other in Hk by auto. auto.
+Qed.
+
+Lemma prevent_obj_le : forall o, obj_le o (prevent_obj o).
+Proof.
+  intro o; split; simpl.
+  - intros k p H Hc. exists p; split; auto using frozen_part_refl.
+  - intro; repeat split; auto.
+Qed.
+
+Lemma setproto_obj_le : forall p o, obj_le o (setproto_obj p o).
+Proof.
+  intros p o. unfold setproto_obj. destruct (o_ext o) eqn:E; [|apply obj_le_refl].
+  split; simpl.
+  - intros k q H Hc. exists q; split; auto using frozen_part_refl.
+  - congruence.
+Qed.
+
+Lemma fold_le : forall (f : obj -> key -> obj) ks o,
+  (forall o k, obj_le o (f o k)) -> obj_le o (fold_left f ks o).
+Proof.
+  induction ks as [|k r IH]; simpl; intros o H; [apply obj_le_refl|].
+  eapply obj_le_trans; [apply H | apply IH, H].
+Qed.
+
+Lemma seal_obj_le : forall o, obj_le o (seal_obj o).
+Proof.
+  intro o. unfold seal_obj. eapply obj_le_trans; [apply prevent_obj_le|].
+  apply fold_le. intros; apply define_obj_le.
+Qed.
+
+Lemma freeze_obj_le : forall o, obj_le o (freeze_obj o).
+Proof.
+  intro o. unfold freeze_obj. eapply obj_le_trans; [apply prevent_obj_le|].
+  apply fold_le. intros o1 k. destruct (find k (o_props o1)) as [[| ]|]; auto using define_obj_le, obj_le_refl.
+Qed.
+
+(* heaps *)
+Definition heap_le (h h' : heap) : Prop :=
+  length h = length h' /\ forall i, obj_le (hget h i) (hget h' i).
+
+Lemma heap_le_refl : forall h, heap_le h h.
+Proof. split; auto using obj_le_refl. Qed.
+
+Lemma heap_le_trans : forall a b c, heap_le a b -> heap_le b c -> heap_le a c.
+Proof. intros a b c [L1 O1] [L2 O2]; split; [congruence|]. intro i; eapply obj_le_trans; eauto. Qed.
+
+Lemma upd_obj_length : forall h i f, length (upd_obj h i f) = length h.
+Proof. induction h; destruct i; simpl; auto. Qed.
+
+Lemma hget_upd : forall h i f j,
+  hget (upd_obj h i f) j = if Nat.eqb i j && Nat.ltb j (length h) then f (hget h j) else hget h j.
+Proof.
+  unfold hget. induction h as [|o r IH]; intros i f j; simpl.
+  - destruct j; rewrite andb_false_r; reflexivity.
+  - destruct i, j; simpl; auto. rewrite IH. reflexivity.
+Qed.
+
+Lemma upd_obj_le : forall h i f, (forall o, obj_le o (f o)) -> heap_le h (upd_obj h i f).
+Proof.
+  intros h i f H; split; [symmetry; apply upd_obj_length|].
+  intro j. rewrite hget_upd. destruct (_ && _); auto using obj_le_refl.
+Qed.
+
+Lemma s_set_on_receiver_le : forall h k v r, heap_le h (fst (s_set_on_receiver h k v r)).
+Proof.
+  intros. unfold s_set_on_receiver.
+  destruct (find k (o_props (hget h r))) as [[? w ? ?|]|]; simpl; try apply heap_le_refl.
+  - destruct w; simpl; [apply upd_obj_le; intro; apply define_obj_le | apply heap_le_refl].
+  - apply upd_obj_le; intro; apply define_obj_le.
+Qed.
+
+Lemma s_set_le : forall fuel h o k v r, heap_le h (fst (fst (s_set fuel h o k v r))).
+Proof.
+  induction fuel as [|f IH]; intros; simpl; [apply heap_le_refl|].
+  destruct (find k (o_props (hget h o))) as [[? w ? ?|? [s|] ? ?]|]; simpl; try apply heap_le_refl.
+  - destruct w; simpl; [apply s_set_on_receiver_le | apply heap_le_refl].
+  - destruct (o_proto (hget h o)); [apply IH | simpl; apply s_set_on_receiver_le].
+Qed.
+
+Lemma s_setproto_le : forall h o p, heap_le h (fst (s_setproto h o p)).
+Proof.
+  intros. unfold s_setproto.
+  destruct (opt_nat_eqb _ _); [apply heap_le_refl|].
+  destruct (negb _); [apply heap_le_refl|].
+  destruct (reaches _ _ _ _); [apply heap_le_refl|].
+  simpl. apply upd_obj_le. intro; apply setproto_obj_le.
+Qed.
+
+Lemma sstep_le : forall h o, heap_le h (fst (fst (sstep h o))).
+Proof.
+  intros h o; destruct o; cbn [sstep].
+  - apply upd_obj_le; intro; apply define_obj_le.
+  - pose proof (s_set_le (S (length h)) h o k v r) as H.
+    destruct (s_set (S (length h)) h o k v r) as [[h' b] ev]. exact H.
+  - destruct (s_get (S (length h)) h o k r). apply heap_le_refl.
+  - apply heap_le_refl.
+  - apply heap_le_refl.
+  - apply upd_obj_le; intro; apply delete_obj_le.
+  - apply heap_le_refl.
+  - apply upd_obj_le; intro; apply prevent_obj_le.
+  - apply upd_obj_le; intro; apply freeze_obj_le.
+  - apply upd_obj_le; intro; apply seal_obj_le.
+  - apply heap_le_refl.
+  - apply heap_le_refl.
+  - apply heap_le_refl.
+  - apply heap_le_refl.
+  - pose proof (s_setproto_le h o p) as H. destruct (s_setproto h o p). exact H.
+Qed.
+
+Lemma srun_le : forall ops h, heap_le h (srun h ops).
+Proof.
+  unfold srun. induction ops as [|o r IH]; simpl; intro h; [apply heap_le_refl|].
+  eapply heap_le_trans; [apply sstep_le | apply IH].
+Qed.
+
+Lemma essential_invariants : forall h ops i k p,
+  find k (o_props (hget h i)) = Some p -> p_conf p = false ->
+  exists p', find k (o_props (hget (srun h ops) i)) = Some p' /\ frozen_part p p'.
+Proof. intros h ops i k p H Hc. destruct (srun_le ops h) as [_ L]. exact (proj1 (L i) k p H Hc). Qed.
+
+Lemma nonextensible_invariants : forall h ops i,
+  o_ext (hget h i) = false ->
+  o_ext (hget (srun h ops) i) = false /\
+  o_proto (hget (srun h ops) i) = o_proto (hget h i) /\
+  forall k, find k (o_props (hget (srun h ops) i)) <> None -> find k (o_props (hget h i)) <> None.
+Proof. intros h ops i H. destruct (srun_le ops h) as [_ L]. exact (proj2 (L i) H). Qed.
+
+(* frozen objects do not change at all any more, as observed through descriptors *)
+Lemma frozen_is_final : forall h ops i,
+  is_frozen (hget h i) = true ->
+  forall k, find k (o_props (hget (srun h ops) i)) = find k (o_props (hget h i)).
+Proof.
+  intros h ops i Hf k. unfold is_frozen in Hf. apply andb_prop in Hf as [He Ha].
+  apply negb_true_iff in He.
+  destruct (nonextensible_invariants h ops i He) as (_ & _ & Ks).
+  destruct (find k (o_props (hget h i))) as [p|] eqn:F.
+  - assert (Hp : match p with PData _ w _ c => negb c && negb w | PAcc _ _ _ c => negb c end = true).
+    { clear -F Ha. induction (o_props (hget h i)) as [|[k' p'] r IH]; simpl in *; [discriminate|].
+      apply andb_prop in Ha as [H1 H2]. destruct (key_eqb k k'); [inversion F; subst; exact H1 | auto]. }
+    destruct (essential_invariants h ops i k p F) as (p' & F' & (_ & _ & _ & V)).
+    { destruct p; [apply andb_prop in Hp as [Hp _]|]; now apply negb_true_iff in Hp. }
+    rewrite F'. f_equal. destruct p as [v w e c|g s e c]; auto.
+    apply V. apply andb_prop in Hp as [_ Hp]. now apply negb_true_iff in Hp.
+  - destruct (find k (o_props (hget (srun h ops) i))) eqn:F'; auto.
+    exfalso. apply (Ks k); congruence.
+Qed.
